@@ -17,6 +17,7 @@ type c08Case struct {
 	Entity     string   `json:"entity"` // operator | account
 	Strict     bool     `json:"strict"`
 	Keys       []string `json:"keys"`                      // plain signing keys
+	Retired    []string `json:"retired,omitempty"`         // of those, the ones taken out again by ONE Remove(...) call
 	ScopedKeys []string `json:"scoped_keys"`               // account only
 	ByValue    bool     `json:"scopes_by_value,omitempty"` // scoped signers registered as UserScope values, not pointers
 	RoundTrip  bool     `json:"round_trip"`                // entity encoded and decoded first
@@ -64,6 +65,20 @@ func mkClaim(kind, issuer, subject, ia string) jwt.Claims {
 	}
 }
 
+func minus(keys, out []string) []string {
+	var r []string
+	for _, x := range keys {
+		gone := false
+		for _, y := range out {
+			gone = gone || x == y
+		}
+		if !gone {
+			r = append(r, x)
+		}
+	}
+	return r
+}
+
 func evalC08(c *Ctx, k c08Case) {
 	okp, akp := kpN('O', 0), kpN('A', 0)
 	self := pubOf(okp)
@@ -80,6 +95,9 @@ func evalC08(c *Ctx, k c08Case) {
 		oc := jwt.NewOperatorClaims(self)
 		oc.StrictSigningKeyUsage = k.Strict
 		oc.SigningKeys.Add(k.Keys...)
+		if len(k.Retired) > 0 {
+			oc.SigningKeys.Remove(k.Retired...)
+		}
 		if k.RoundTrip {
 			tok, err := oc.Encode(okp)
 			must(err)
@@ -91,10 +109,13 @@ func evalC08(c *Ctx, k c08Case) {
 		} else {
 			got = oc.DidSign(claim)
 		}
-		allKeys = k.Keys
+		allKeys = minus(k.Keys, k.Retired)
 	} else {
 		ac := jwt.NewAccountClaims(self)
 		ac.SigningKeys.Add(k.Keys...)
+		if len(k.Retired) > 0 {
+			ac.SigningKeys.Remove(k.Retired...)
+		}
 		for _, sk := range k.ScopedKeys {
 			us := jwt.NewUserScope()
 			us.Key = sk
@@ -116,7 +137,7 @@ func evalC08(c *Ctx, k c08Case) {
 		} else {
 			got = ac.DidSign(claim)
 		}
-		allKeys = append(append([]string{}, k.Keys...), k.ScopedKeys...)
+		allKeys = append(minus(k.Keys, k.Retired), k.ScopedKeys...)
 	}
 	// oracle: the sentence of the property
 	listed := false
@@ -165,7 +186,7 @@ func evalC08(c *Ctx, k c08Case) {
 }
 
 func runC08(c *Ctx) {
-	c.Res.Rule = "complete cross product: entity {operator, account} x signing-key set {empty, listed, listed+identity with the identity key last / first / in the middle} (account: plain and scoped, scopes registered by pointer and by value) x strict flag x claim {nil, 7 kinds} x issuer {identity, listed plain key, listed scoped key, unlisted key of same role, key of another entity} x subject {self, other} x issuer-account {empty, this, other} x before/after encode-decode of the entity; oracle = the property's sentence; every case also goes through the Lean model; plus long signing-key lists (24 operator keys sorted / two neighbours swapped / reversed / random, 20 account keys), every listed key and an unlisted one asked about. non-trivial = distinct cases."
+	c.Res.Rule = "complete cross product: entity {operator, account} x signing-key set {empty, listed, listed+identity with the identity key last / first / in the middle} (account: plain and scoped, scopes registered by pointer and by value) x strict flag x claim {nil, 7 kinds} x issuer {identity, listed plain key, listed scoped key, unlisted key of same role, key of another entity} x subject {self, other} x issuer-account {empty, this, other} x before/after encode-decode of the entity; oracle = the property's sentence; every case also goes through the Lean model; plus long signing-key lists (24 operator keys sorted / two neighbours swapped / reversed / random, 20 account keys), every listed key and an unlisted one asked about; plus retired keys: every non-empty subset of five listed keys taken out by one Remove call, in both argument orders, every key asked about. non-trivial = distinct cases."
 	okp, akp := kpN('O', 0), kpN('A', 0)
 	o, a := pubOf(okp), pubOf(akp)
 	osk, osk2 := pubOf(kpN('O', 1)), pubOf(kpN('O', 2))
@@ -251,6 +272,42 @@ func runC08(c *Ctx) {
 			evalC08(c, c08Case{Entity: "account", Keys: aks, Kind: "user", Issuer: iss, Subject: pubOf(kpN('U', 0)), IssuerAcct: a})
 			n++
 		}
+	}
+	// retired keys: several keys taken out by ONE Remove call, in every order and position; a retired key no longer
+	// signs, a key that stays still does
+	{
+		var ks []string
+		for i := 0; i < 5; i++ {
+			ks = append(ks, pubOf(kpN('O', 60+i)))
+		}
+		var aks []string
+		for i := 0; i < 5; i++ {
+			aks = append(aks, pubOf(kpN('A', 60+i)))
+		}
+		for mask := 1; mask < 32; mask++ {
+			for _, reverse := range []bool{false, true} {
+				var ret, aret []string
+				for i := 0; i < 5; i++ {
+					if mask&(1<<i) != 0 {
+						ret, aret = append(ret, ks[i]), append(aret, aks[i])
+					}
+				}
+				if reverse {
+					for i, j := 0, len(ret)-1; i < j; i, j = i+1, j-1 {
+						ret[i], ret[j] = ret[j], ret[i]
+						aret[i], aret[j] = aret[j], aret[i]
+					}
+				}
+				for _, rt := range []bool{false, true} {
+					for i := 0; i < 5; i++ {
+						evalC08(c, c08Case{Entity: "operator", Keys: ks, Retired: ret, RoundTrip: rt, Kind: "account", Issuer: ks[i], Subject: a})
+						evalC08(c, c08Case{Entity: "account", Keys: aks, Retired: aret, RoundTrip: rt, Kind: "user", Issuer: aks[i], Subject: pubOf(kpN('U', 0)), IssuerAcct: a})
+						n += 2
+					}
+				}
+			}
+		}
+		c.Count("retired-keys")
 	}
 	c.Res.Exhaustive = true
 	c.Sample(c08Case{Entity: "account", Keys: []string{ask}, Kind: "user", Issuer: ask, Subject: pubOf(kpN('U', 0)), IssuerAcct: a})
